@@ -279,7 +279,11 @@ def junk_line(t, enc, style, errs):
         if bad:
             jk = b"$HEX[" + t.choice(bad).hex().encode("ascii") + b"]"
             counted = None
-    if style == "count":
+    if style == "count" and enc == "utf-8" and t.chance(1, 5):
+        # a line without a usable count: its first field looks like digits to str.isdigit() but is no integer
+        jk = t.choice(["\u00b2 squared", "\u2460 one", "\u2464\u2465 x", "\u2077 seven", "\u00b9\u00b2 x", "\u00bd half"]).encode("utf-8")
+        counted = None
+    elif style == "count":
         if jk.strip() and t.chance(1, 2):
             jk = str(t.between(1, 3)).encode() + b" " + jk
         counted = None                    # whether a count prefix multiplies an error is the tool's convention: not judged
